@@ -75,3 +75,31 @@ Theorem C12_roundtrip_judge_sound :
      tu_bf m1 n1 M1 = true /\ tu_bf m2 n2 M2 = true).
 Proof. exact judge_kdecomp_sound. Qed.
 Print Assumptions C12_roundtrip_judge_sound.
+
+(* ---------- 2-sums and total unimodularity (TuTwoSum.v, MathComp; proof by pivoting a glued matrix) ---------- *)
+From Cmr Require TuTwoSum.
+From mathcomp Require ssrnat.
+
+(* the 2-sum (model of CMRtwosumCompose, characteristic 3) of two TU matrices is TU — both variants *)
+Theorem C12_twosum_preserves_TU_row_col : forall m1 n1 M1 m2 n2 M2 r1 c2 M,
+  twosum 3 m1 n1 M1 m2 n2 M2 (Some r1) None None (Some c2) = KOk M ->
+  tu_bf m1 n1 M1 = true -> tu_bf m2 n2 M2 = true -> tu_bf (m1 - 1 + m2) (n1 + (n2 - 1)) M = true.
+Proof. exact TuTwoSum.tu_bf_twosum_row_col. Qed.
+Print Assumptions C12_twosum_preserves_TU_row_col.
+
+Theorem C12_twosum_preserves_TU_col_row : forall m1 n1 M1 m2 n2 M2 c1 r2 M,
+  twosum 3 m1 n1 M1 m2 n2 M2 None (Some c1) (Some r2) None = KOk M ->
+  tu_bf m1 n1 M1 = true -> tu_bf m2 n2 M2 = true -> tu_bf (m1 + (m2 - 1)) (n1 - 1 + n2) M = true.
+Proof. exact TuTwoSum.tu_bf_twosum_col_row. Qed.
+Print Assumptions C12_twosum_preserves_TU_col_row.
+
+(* conversely the components of a TU 2-sum with nonzero connecting lines are TU: this is the heredity the round-trip
+   judge demands of CMRtwosumDecompose (code 156) *)
+Theorem C12_twosum_components_TU : forall m1 n1 M1 m2 n2 M2 r1 c2 M,
+  twosum 3 m1 n1 M1 m2 n2 M2 (Some r1) None None (Some c2) = KOk M ->
+  is_ternary M1 = true -> is_ternary M2 = true ->
+  (exists j, is_true (ssrnat.leq (S j) n1) /\ get M1 r1 j <> 0) ->
+  (exists i, is_true (ssrnat.leq (S i) m2) /\ get M2 i c2 <> 0) ->
+  tu_bf (m1 - 1 + m2) (n1 + (n2 - 1)) M = true -> tu_bf m1 n1 M1 = true /\ tu_bf m2 n2 M2 = true.
+Proof. exact TuTwoSum.tu_bf_twosum_row_col_conv. Qed.
+Print Assumptions C12_twosum_components_TU.
